@@ -532,12 +532,9 @@ def gen_ep_formulas(incdirs, out_path, cpfx="ep", fpfx="fp"):
         except TranslationError as e:
             failures.append("translation of %s failed: %s" % (item, e))
             obligations.append({"c_function": item, "ok": False, "error": str(e)})
-    os.makedirs(os.path.dirname(out_path), exist_ok=True)
-    with open(out_path, "w") as fh:
-        fh.write(HEADER % ("source: src/tmpl/relic_ep_add_tmpl.h, src/tmpl/relic_ep_dbl_tmpl.h, src/%s/relic_%s_add.c, relic_%s_dbl.c" % (
-            "ep" if cpfx == "ep" else "epx", cpfx, cpfx)))
-        fh.write("\n".join(defs))
-        fh.write("\nend Relic.Gen\n")
+    import relicbuild
+    relicbuild.write_if_changed(out_path, (HEADER % ("source: src/tmpl/relic_ep_add_tmpl.h, src/tmpl/relic_ep_dbl_tmpl.h, src/%s/relic_%s_add.c, relic_%s_dbl.c" % (
+        "ep" if cpfx == "ep" else "epx", cpfx, cpfx))) + "\n".join(defs) + "\nend Relic.Gen\n")
     return {"obligations": obligations, "failures": failures}
 
 
